@@ -252,18 +252,21 @@ static void sig_tests(TMCG_SecretKey &sec, TMCG_PublicKey &pub, TMCG_SecretKey &
 			    size_t lo[3] = { 0, mdl, mdl + TMCG_PRAB_K0 }, hi[3] = { mdl, mdl + TMCG_PRAB_K0, mn };
 			    static const char *fn[3] = { "w", "r", "gamma" };
 			    for (int fld = 0; fld < 3; fld++) {
-			      bool done = false;
-			      for (int tr = 0; tr < 40 && !done; tr++) {
-			        std::vector<unsigned char> y2 = yy;
-			        size_t pos = tr == 0 ? hi[fld] - 1 : lo[fld] + gen().below(hi[fld] - lo[fld]);
-			        y2[pos] ^= (unsigned char)(1u << gen().below(8));
-			        Z f2, q0, q1, q2, q3;
-			        mpz_import(f2.v, 1, -1, mn, 1, 0, y2.data());
-			        if (!tmcg_mpz_qrmn_p(f2.v, sec.p, sec.q)) continue;
-			        tmcg_mpz_sqrtmn_fast_all(q0.v, q1.v, q2.v, q3.v, f2.v, sec.p, sec.q, sec.m, sec.gcdext_up, sec.gcdext_vq, sec.pa1d4, sec.qa1d4);
-			        std::string s5 = "sig|" + kid + "|" + S(q0.v) + "|";
-			        cnt.mutants++; done = true;
-			        if (do_verify(pub, data, s5)) propfail(std::string("verify-field/") + fn[fld], "signature with an altered padded value accepted (byte " + std::to_string(pos) + "): key=" + tag + " data=" + xb(data) + " sig=" + s5);
+			      // three mutants per field: in its last byte, in its first byte (comparisons of a prefix/suffix only), at a random place
+			      for (int phase = 0; phase < 3; phase++) {
+			        bool done = false;
+			        for (int tr = 0; tr < 40 && !done; tr++) {
+			          std::vector<unsigned char> y2 = yy;
+			          size_t pos = phase == 0 ? hi[fld] - 1 : phase == 1 ? lo[fld] : lo[fld] + gen().below(hi[fld] - lo[fld]);
+			          y2[pos] ^= (unsigned char)(phase < 2 ? tr + 1 : (1u << gen().below(8)));
+			          Z f2, q0, q1, q2, q3;
+			          mpz_import(f2.v, 1, -1, mn, 1, 0, y2.data());
+			          if (!tmcg_mpz_qrmn_p(f2.v, sec.p, sec.q)) continue;
+			          tmcg_mpz_sqrtmn_fast_all(q0.v, q1.v, q2.v, q3.v, f2.v, sec.p, sec.q, sec.m, sec.gcdext_up, sec.gcdext_vq, sec.pa1d4, sec.qa1d4);
+			          std::string s5 = "sig|" + kid + "|" + S(q0.v) + "|";
+			          cnt.mutants++; done = true;
+			          if (do_verify(pub, data, s5)) propfail(std::string("verify-field/") + fn[fld], "signature with an altered padded value accepted (byte " + std::to_string(pos) + "): key=" + tag + " data=" + xb(data) + " sig=" + s5);
+			        }
 			      }
 			    }
 			  }
@@ -463,6 +466,207 @@ static void key_tests(TMCG_SecretKey &sec, TMCG_PublicKey &pub, bool nizk, bool 
 	}
 }
 
+
+// ---- mutation grid over the validity proof, self-signature recomputed by the key owner ------------------------------
+// every (sampled: quick / all: thorough) response position of the three stages x catalogue; a mutant is "equivalent" when the
+// stage equation cannot tell it from the original (value+m everywhere; negated value in stages 2 and 3: same square).
+// Stage 1: x -> x^m is a permutation of Z_m^*, so a response that is not congruent to the original is refused with certainty;
+// stages 2/3: a non-equivalent response passes only if a hash-derived challenge satisfies a fixed algebraic relation
+// (at most 16 of the phi(m) challenges: probability < 2^-400 for the moduli used).
+static void nizk_grid(TMCG_SecretKey &sec, bool thorough, size_t worker, size_t nworkers, const std::string &tag) {
+	std::vector<std::string> z = split(sec.nizk, '^');
+	size_t n[3] = { TMCG_KEY_NIZK_STAGE1, TMCG_KEY_NIZK_STAGE2, TMCG_KEY_NIZK_STAGE3 };
+	if (z.size() != 1 + 1 + n[0] + 1 + n[1] + 1 + n[2] + 1) { propfail("nizk-format/" + tag, "unexpected proof layout"); return; }
+	size_t h[3] = { 1, 2 + n[0], 3 + n[0] + n[1] };
+	static const char *cat[] = { "plus1", "zero", "one", "m-1", "m", "plus-m", "negated", "swap", "drop", "duplicate" };
+	size_t job = 0, done = 0, accepted_equiv = 0;
+	for (int st = 0; st < 3; st++) {
+		for (size_t i = 0; i < n[st]; i++) {
+			if (!thorough && st > 0 && !(i == 0 || i + 1 == n[st] || i % 8 == 3)) continue;
+			for (int c = 0; c < 10; c++) {
+				if ((job++ % nworkers) != worker) continue;
+				std::vector<std::string> g = z; size_t pos = h[st] + 1 + i;
+				Z v, t; mpz_set_str(v.v, g[pos].c_str(), TMCG_MPZ_IO_BASE);
+				bool equiv = false;
+				switch (c) {
+				case 0: mpz_add_ui(t.v, v.v, 1); g[pos] = S(t.v); break;
+				case 1: g[pos] = "0"; break;
+				case 2: g[pos] = "1"; break;
+				case 3: mpz_sub_ui(t.v, sec.m, 1); g[pos] = S(t.v); break;
+				case 4: g[pos] = S(sec.m); break;
+				case 5: mpz_add(t.v, v.v, sec.m); g[pos] = S(t.v); equiv = true; break;
+				case 6: g[pos] = "-" + g[pos]; equiv = (st > 0); break;
+				case 7: { size_t o = (i + 1 < n[st]) ? pos + 1 : pos - 1; if (g[o] == g[pos]) equiv = true; std::swap(g[o], g[pos]); break; }
+				case 8: g.erase(g.begin() + pos); break;
+				case 9: g.insert(g.begin() + pos, g[pos]); equiv = (st == 2 && i + 1 == n[2]); break;   // after the last round: trailing text, never read
+				}
+				if (g == z) continue;
+				TMCG_SecretKey s2(sec);
+				s2.nizk = join(g, '^');
+				resign(s2);
+				TMCG_PublicKey p2(s2); cnt.mutants++; done++;
+				bool ok = do_check(p2, worker == 0 && st == 0 && i == 0);       // the first stage-1 position is also model-compared (cheap records)
+				if (ok && equiv) accepted_equiv++;
+				if (ok && !equiv) propfail(std::string("check-nizk-grid/stage") + std::to_string(st + 1) + "/" + cat[c],
+					"key with altered validity proof (self-signature recomputed) accepted: key=" + tag + " stage " + std::to_string(st + 1) + " round " + std::to_string(i) + " mutation " + cat[c] + " value=" + g[pos < g.size() ? pos : g.size() - 1]);
+			}
+		}
+	}
+	fprintf(stderr, "[c10] nizk grid worker %zu/%zu: %zu re-signed mutants checked, %zu equivalent ones accepted\n", worker, nworkers, done, accepted_equiv);
+}
+
+// ---- owner-made defective keys: own prover and signer (copies of generate()/sign()) for a given factorisation -------------
+struct Owner {
+	std::vector<Z> pr; std::vector<unsigned> ex;      // m = prod pr[i]^ex[i], ex[i] in {1,2}
+	Z m, y, phi;
+	void finish() {
+		mpz_set_ui(m.v, 1); mpz_set_ui(phi.v, 1); Z t;
+		for (size_t i = 0; i < pr.size(); i++) for (unsigned e = 0; e < ex[i]; e++) {
+			mpz_mul(m.v, m.v, pr[i].v);
+			if (e == 0) { mpz_sub_ui(t.v, pr[i].v, 1); mpz_mul(phi.v, phi.v, t.v); } else mpz_mul(phi.v, phi.v, pr[i].v);
+		}
+	}
+	bool qr(mpz_srcptr a) const { for (auto &p : pr) if (mpz_jacobi(a, p.v) != 1) return false; return true; }
+	// a square root of the residue a modulo m (Hensel step for squared primes, CRT)
+	void root(mpz_ptr r, mpz_srcptr a) const {
+		Z x, N, ri, ni, t, u; mpz_set_ui(x.v, 0); mpz_set_ui(N.v, 1);
+		for (size_t i = 0; i < pr.size(); i++) {
+			mpz_mod(t.v, a, pr[i].v);
+			tmcg_mpz_sqrtmp_r(ri.v, t.v, pr[i].v);
+			mpz_set(ni.v, pr[i].v);
+			if (ex[i] == 2) {
+				mpz_mul(ni.v, ni.v, pr[i].v);
+				mpz_mul(t.v, ri.v, ri.v); mpz_sub(t.v, t.v, a);            // r^2 - a
+				mpz_mul_2exp(u.v, ri.v, 1); mpz_invert(u.v, u.v, ni.v);    // (2r)^-1
+				mpz_mul(t.v, t.v, u.v); mpz_sub(ri.v, ri.v, t.v); mpz_mod(ri.v, ri.v, ni.v);
+			}
+			mpz_sub(t.v, ri.v, x.v); mpz_invert(u.v, N.v, ni.v); mpz_mul(t.v, t.v, u.v); mpz_mod(t.v, t.v, ni.v);
+			mpz_mul(t.v, t.v, N.v); mpz_add(x.v, x.v, t.v); mpz_mul(N.v, N.v, ni.v);
+		}
+		mpz_mod(r, x.v, m.v);
+	}
+	void challenge(mpz_ptr foo, std::ostringstream &input, unsigned char *mn, size_t mnsize, bool jac) const {
+		Z bar;
+		do {
+			tmcg_g(mn, mnsize, (unsigned char*)(input.str()).c_str(), (input.str()).length());
+			mpz_import(foo, 1, -1, mnsize, 1, 0, mn); mpz_mod(foo, foo, m.v); mpz_gcd(bar.v, foo, m.v);
+			input << foo;
+		} while (jac ? (mpz_jacobi(foo, m.v) != 1) : (mpz_cmp_ui(bar.v, 1UL) != 0));
+	}
+	std::string prove() const {
+		std::ostringstream nizk2, input; Z foo, bar, d;
+		input << m.v << "^" << y.v; nizk2 << "nzk^";
+		size_t mnsize = mpz_sizeinbase(m.v, 2UL) / 8; std::vector<unsigned char> mn(mnsize + 1);
+		bool dok = mpz_invert(d.v, m.v, phi.v) != 0;
+		nizk2 << TMCG_KEY_NIZK_STAGE1 << "^";
+		for (size_t i = 0; i < TMCG_KEY_NIZK_STAGE1; i++) {
+			challenge(foo.v, input, mn.data(), mnsize, false);
+			if (dok) mpz_powm(bar.v, foo.v, d.v, m.v); else mpz_set_ui(bar.v, 0);
+			nizk2 << bar.v << "^";
+		}
+		nizk2 << TMCG_KEY_NIZK_STAGE2 << "^";
+		for (size_t i = 0; i < TMCG_KEY_NIZK_STAGE2; i++) {
+			challenge(foo.v, input, mn.data(), mnsize, false);
+			mpz_set_ui(bar.v, 0);
+			if (qr(foo.v)) root(bar.v, foo.v);
+			else { mpz_neg(foo.v, foo.v);
+				if (qr(foo.v)) root(bar.v, foo.v);
+				else { mpz_mul_2exp(foo.v, foo.v, 1UL);
+					if (qr(foo.v)) root(bar.v, foo.v);
+					else { mpz_neg(foo.v, foo.v); if (qr(foo.v)) root(bar.v, foo.v); } } }
+			nizk2 << bar.v << "^";
+		}
+		nizk2 << TMCG_KEY_NIZK_STAGE3 << "^";
+		for (size_t i = 0; i < TMCG_KEY_NIZK_STAGE3; i++) {
+			challenge(foo.v, input, mn.data(), mnsize, true);
+			if (!qr(foo.v)) { mpz_mul(foo.v, foo.v, y.v); mpz_mod(foo.v, foo.v, m.v); }
+			mpz_set_ui(bar.v, 0);
+			if (qr(foo.v)) root(bar.v, foo.v);
+			nizk2 << bar.v << "^";
+		}
+		return nizk2.str();
+	}
+	// PRab signature as TMCG_SecretKey::sign makes it, key id as generate() patches it
+	std::string selfsign(const std::string &data) const {
+		size_t mdsize = tmcg_mpz_shash_len(), mnsize = mpz_sizeinbase(m.v, 2UL) / 8; Z foo, s;
+		do {
+			std::vector<unsigned char> r(TMCG_PRAB_K0), Mr(data.size() + TMCG_PRAB_K0), w(mdsize), g12(mnsize), yy(mnsize);
+			for (auto &b : r) b = (unsigned char)gen().below(256);
+			memcpy(Mr.data(), data.data(), data.size()); memcpy(Mr.data() + data.size(), r.data(), TMCG_PRAB_K0);
+			tmcg_h(w.data(), Mr.data(), Mr.size());
+			tmcg_g(g12.data(), mnsize - mdsize, w.data(), mdsize);
+			for (size_t i = 0; i < TMCG_PRAB_K0; i++) r[i] ^= g12[i];
+			memcpy(yy.data(), w.data(), mdsize); memcpy(yy.data() + mdsize, r.data(), TMCG_PRAB_K0);
+			memcpy(yy.data() + mdsize + TMCG_PRAB_K0, g12.data() + TMCG_PRAB_K0, mnsize - mdsize - TMCG_PRAB_K0);
+			mpz_import(foo.v, 1, -1, mnsize, 1, 0, yy.data());
+		} while (!qr(foo.v));
+		root(s.v, foo.v);
+		std::string val = S(s.v);
+		return "sig|ID8^" + val.substr(val.size() >= 8 ? val.size() - 8 : 0) + "|" + val + "|";
+	}
+	void publish(TMCG_PublicKey &k) const {
+		k.name = "Mallory"; k.email = "mallory@example.org";
+		k.type = "TMCG/RABIN_" + std::to_string(mpz_sizeinbase(m.v, 2) - 1) + "_NIZK";
+		mpz_set(k.m, m.v); mpz_set(k.y, y.v); k.nizk = prove();
+		std::ostringstream data; data << k.name << "|" << k.email << "|" << k.type << "|" << k.m << "|" << k.y << "|" << k.nizk << "|";
+		k.sig = selfsign(data.str());
+	}
+};
+static void gen_prime(mpz_ptr p, unsigned bits, unsigned long res8) {
+	do { gen_bits(p, bits); mpz_setbit(p, bits - 1); mpz_nextprime(p, p); } while (mpz_fdiv_ui(p, 8) != res8 || mpz_sizeinbase(p, 2) != bits);
+}
+// smallest y >= 2 with Jacobi symbol -1 modulo each of the first two primes and +1 modulo the others (a non-residue with Jacobi symbol 1)
+static void pick_y(Owner &o) {
+	mpz_set_ui(o.y.v, 1);
+	for (;;) {
+		mpz_add_ui(o.y.v, o.y.v, 1); bool good = true;
+		for (size_t i = 0; i < o.pr.size() && good; i++) good = (mpz_jacobi(o.y.v, o.pr[i].v) == ((i < 2 && o.pr.size() > 1) ? -1 : 1));
+		if (o.pr.size() == 1) good = mpz_jacobi(o.y.v, o.pr[0].v) == 1 && mpz_cmp_ui(o.y.v, 4) > 0;
+		if (good) return;
+	}
+}
+static void owner_keys(bool thorough) {
+	struct Case { const char *label; std::vector<unsigned long> res8; std::vector<unsigned> bits, ex; int y_mode; int expect; const char *bound; };
+	// expect: 1 = must be accepted (control), 0 = must be refused, -1 = observation only (check() has no means to refuse)
+	std::vector<Case> cs = {
+		{"control-blum-3-7",       {3, 7},    {215, 215},      {1, 1},    0, 1,  ""},
+		{"both-3-mod-8",           {3, 3},    {215, 215},      {1, 1},    0, 0,  "2^-128 (stage 2: each round fails with probability 1/2)"},
+		{"both-7-mod-8",           {7, 7},    {215, 215},      {1, 1},    0, 0,  "2^-128 (stage 2)"},
+		{"p-1-mod-8",              {1, 3},    {215, 215},      {1, 1},    0, 0,  "2^-128 (stage 2: no multiplier changes the residuosity modulo p)"},
+		{"three-primes",           {3, 7, 3}, {145, 145, 145}, {1, 1, 1}, 0, 0,  "2^-128 (stage 2: at most 4 of the 8 residuosity patterns have a square among +-c, +-2c)"},
+		{"prime-power-p2q",        {3, 7},    {145, 145},      {2, 1},    0, 0,  "p^-16 < 2^-2300 (stage 1: m-th roots exist for a fraction 1/p of the challenges)"},
+		{"prime-square",           {3},       {215},           {2},       0, 0,  "p^-16 (stage 1)"},
+		{"y-is-a-square",          {3, 7},    {215, 215},      {1, 1},    1, 0,  "2^-128 (stage 3: challenges that are non-residues modulo both primes have no answer)"},
+		{"y-jacobi-one-residue",   {3, 7},    {215, 215},      {1, 1},    2, 0,  "2^-128 (stage 3)"},
+		{"non-blum-p-5-mod-8",     {5, 3},    {215, 215},      {1, 1},    0, -1, ""},
+		{"small-factor-7",         {7, 3},    {3, 425},        {1, 1},    0, -1, ""},
+	};
+	for (auto &c : cs) {
+		Owner o;
+		for (int attempt = 0; attempt < 50; attempt++) {
+			o.pr.clear(); o.ex = c.ex;
+			for (size_t i = 0; i < c.res8.size(); i++) { Z p; if (c.bits[i] <= 3) mpz_set_ui(p.v, 7); else gen_prime(p.v, c.bits[i], c.res8[i]); o.pr.push_back(p); }
+			bool distinct = true;
+			for (size_t i = 0; i < o.pr.size(); i++) for (size_t j = 0; j < i; j++) if (!mpz_cmp(o.pr[i].v, o.pr[j].v)) distinct = false;
+			o.finish();
+			size_t b = mpz_sizeinbase(o.m.v, 2);
+			if (distinct && b % 8 != 0 && b / 8 > 52) break;
+		}
+		pick_y(o);
+		if (c.y_mode == 1) mpz_set_ui(o.y.v, 4);
+		if (c.y_mode == 2) { Z t; mpz_set_ui(t.v, 2); while (!(mpz_jacobi(t.v, o.pr[0].v) == 1 && mpz_jacobi(t.v, o.pr[1].v) == 1 && !mpz_perfect_square_p(t.v))) mpz_add_ui(t.v, t.v, 1); mpz_set(o.y.v, t.v); }
+		TMCG_PublicKey k; o.publish(k); cnt.mutants++;
+		bool cheap = (c.ex[0] == 2);                       // refused in the first stage-1 round: cheap for the model
+		bool ok = do_check(k, cheap || (thorough && c.expect == 0 && std::string(c.label) == "both-3-mod-8"));
+		fprintf(stderr, "[c10] owner-made key %-22s bits %zu y %s: check() = %d\n", c.label, mpz_sizeinbase(o.m.v, 2), S(o.y.v).c_str(), (int)ok);
+		if (c.expect == 1 && !ok) propfail(std::string("owner-key/") + c.label, "harness prover/signer control: a proper Blum-integer key with recomputed proof is refused");
+		if (c.expect == 0 && ok) propfail(std::string("owner-key/") + c.label, std::string("defective key with a proof recomputed by its owner accepted (acceptance bound ") + c.bound + "): m=" + S(o.m.v) + " y=" + S(o.y.v));
+		if (c.expect == -1) printf("NOTE owner-key/%s check()=%d\n", c.label, (int)ok);
+		// also through export/import
+		if (c.expect == 0) { TMCG_PublicKey k2(exp(k)); if (do_check(k2, false)) propfail(std::string("owner-key-imported/") + c.label, "defective key accepted after export/import"); }
+	}
+}
+
 static unsigned long pick_keysize(unsigned long lo, unsigned long hi) {
 	unsigned long k;
 	do { k = lo + gen().below(hi - lo + 1); } while (k % 8 > 5);      // see docs/C10.md: sizes = 6,7 mod 8 can abort inside generate()
@@ -555,6 +759,7 @@ static void big_moduli(const std::string &what) {
 	fflush(stdout);
 }
 
+static const size_t NGRID = 4;
 int main(int argc, char **argv) {
 	Args a(argc, argv);
 	if (!init_libTMCG()) { fprintf(stderr, "init_libTMCG failed\n"); return 3; }
@@ -569,7 +774,9 @@ int main(int argc, char **argv) {
 	plan.push_back({pick_keysize(425, 668), gen().coin()});       // signature only: decrypt must refuse
 	plan.push_back({pick_keysize(673, 900), true});
 	if (th) { plan.push_back({1024, true}); plan.push_back({pick_keysize(900, 1500), false}); plan.push_back({TMCG_QRA_SIZE, true}); plan.push_back({669, false}); }
-	size_t idx = a.only.empty() ? 0 : strtoul(a.only.c_str() + 1, 0, 10);
+	char role = a.only.empty() ? 'k' : a.only[0];      // k<i>: key i; n<w>: validity-proof grid worker w on key 0; o: owner-made defective keys
+	size_t arg = a.only.empty() ? 0 : strtoul(a.only.c_str() + 1, 0, 10);
+	size_t idx = role == 'k' ? arg : 0;
 	if (idx >= plan.size()) return 0;
 	// per-key generator/lib streams so that keys do not depend on each other
 	gen() = SplitMix64(a.seed * 0x9E3779B97F4A7C15ULL + 1000 * idx + 29);
@@ -579,6 +786,8 @@ int main(int argc, char **argv) {
 	std::string tag = "k" + std::to_string(pl.ks) + (pl.nizk ? "n" : "");
 	TMCG_SecretKey sec("Alice", "alice@example.org", pl.ks, pl.nizk);
 	TMCG_PublicKey pub(sec);
+	if (role == 'n') { gen() = SplitMix64(a.seed * 0x9E3779B97F4A7C15ULL + 77 * arg + 5); nizk_grid(sec, th, arg, NGRID, tag); return 0; }
+	if (role == 'o') { owner_keys(th); return 0; }
 	TMCG_SecretKey osec("Bob", "bob@example.org", mpz_sizeinbase(sec.m, 2) >= 673 ? 672 : 424, false);
 	TMCG_PublicKey opub(osec);
 	fprintf(stderr, "[c10] key %zu: keysize %lu nizk %d bits %zu generated in %.1fs\n", idx, pl.ks, (int)pl.nizk, mpz_sizeinbase(sec.m, 2), now() - t0);
